@@ -43,7 +43,11 @@ def gen_budget(rng, profile='migrate', year=2025):
     rid = 1
     simple_st = profile == 'migrate' or (profile == 'mixed' and rng.random() < 0.5)
     for nm in names:
-        lay = st.gen_layout(rng, rich=False, simple=simple_st)
+        if not simple_st and rng.random() < 0.12:
+            # a statement split by a regular expression (upper-case classes in the pattern: the setting is used as written)
+            lay = st.gen_layout(rng, rich=False, simple=False, delimiter='regex')
+        else:
+            lay = st.gen_layout(rng, rich=False, simple=simple_st)
         rows = st.gen_rows(rng, rng.randint(1 if profile == 'migrate' else 0, 6), first_id=rid, year=year)
         rid += len(rows) + 1
         st.fill_caps(rng, lay, rows)
